@@ -27,12 +27,12 @@ PROTO_NOTE = NOTE_COMMON + ('The simzmq stand-in for pyzmq (harness/simzmq.py) a
 CHECKS['C01'] = dict(
    text='Theorem over the Gallina receiver machine (transliteration of ZMQReceiver.recv/recv_once/process_msg incl. the poller) for EVERY configuration '
         'and EVERY list of deliveries, poll answers, calls, clock values: a returned set never holds a synchronized frame published under another id '
-        '(invariant J lifted over all reachable states); refutation witness for the pinned code; the machine is compared item by item (outputs + state digest) '
+        '(invariant J lifted over all reachable states); the lossless synchronized JOIN of N sources fed in lock step (C01_join_lossless, C01_join_lossless_explicit: every set handed over is row k of the published matrix, complete); refutation witness for the pinned code; the machine is compared item by item (outputs + state digest) '
         'with the real class under a scripted fake ZeroMQ on every run.',
    note=PROTO_NOTE, technique='Coq proof (inductive invariant over a reactive machine, all input sequences) + differential correspondence', ref='§5, §6 C01')
 CHECKS['C02'] = dict(
    text='Theorems for every item list: ids returned by a receiver strictly increase (legal call states), a sender publishes each id at most once in increasing order '
-        'and its low-water mark is monotone; receiver and sender machines compared with the real classes on every run; topic-map/payload oracle on the implementation.',
+        'and its low-water mark is monotone; every payload handed over was read off the wire under exactly that id, publisher, source and a topic subscribed to BY NAME (C02_payload_and_topic_map; refuted for the pinned code, repaired by de2c375); receiver and sender machines compared with the real classes on every run; topic-map oracle and the C09 payload round-trip oracle on the implementation.',
    note=PROTO_NOTE, technique='Coq proof (ordering invariants over both machines) + differential correspondence', ref='§5, §6 C02')
 CHECKS['C05'] = dict(
    text="Theorems for every item list: a '??' source never pushes anything; an ephemeral request never rewinds/fast-forwards/discards; the publish gate of a non-balanced "
@@ -45,12 +45,12 @@ CHECKS['C07'] = dict(
 CHECKS['C08'] = dict(
    text='Theorems over the Gallina transliteration of Filter.run (nested try/finally as an exception monad) for EVERY script of callback outcomes, policies and loop lengths: '
         'shutdown exactly once iff setup completed, fini / init-stage MQ teardown / stop_logging counts, stop event set last, clean exits never escape, loop outcome laws, '
-        'obey table, exit_after law; the model is compared with the real Filter.run (scripted subclass over the in-memory ZeroMQ) on every run.',
+        'obey table, exit_after law; an exit announcement read by a publisher is always handed up (C08_announcement_always_handed_up); the model is compared with the real Filter.run (scripted subclass over the in-memory ZeroMQ) on every run.',
    note=NOTE_COMMON + 'Whole-pipeline termination is explored, not proved. Callbacks are atomic w.r.t. the stop event.',
    technique='Coq proof (total function over scripts; counting lemmas; induction over the loop) + differential correspondence', ref='§6 C08')
 CHECKS['C18'] = dict(
    text='Theorem: for every lifecycle script and EVERY interleaving of the heartbeat thread the emitted history is empty or START RUNNING* T with exactly one terminal T; '
-        'COMPLETE only if run() returned normally; the model history is compared with the events a capturing client receives from the real OpenFilterLineage under the real Filter.run.',
+        'COMPLETE only if run() returned normally; the model history is compared with the events a capturing client receives from the real OpenFilterLineage under the real Filter.run, with the telemetry bridge handing facets to the emitter during and after the run.',
    note=NOTE_COMMON + 'Interleavings are at the granularity of emitter-lock critical sections; one run per emitter.',
    technique='Coq proof (phase invariants of the emitter over all interleavings) + differential correspondence', ref='§6 C18')
 CHECKS['C09'] = dict(
@@ -83,7 +83,7 @@ CHECKS['C03'] = dict(
         'send_maybe that publishes, at most once); THE LOSSLESS EDGE by refinement (C03_edge_lossless, C03_edge_nothing_dropped: for every interleaving of deliveries, poll answers, calls, timeouts and clock '
         'values a synchronized consumer - subscribe-all or an explicit topic list with renaming - fed in order by a well-formed publisher is handed exactly the first k published frames as its subscription sees them - ids, topics, payloads - and all of them once its socket is drained; C03_edge_lossless, C03_edge_lossless_explicit, C03_edge_end_to_end: one generic refinement, two instances); '
         'MQGlue model compared with the real MQ.send/recv/process_frames; the real ZMQReceiver run on schedules machine-checked to satisfy the edge theorem hypotheses; chain/tee/tee-rejoin/join pipelines of REAL '
-        'filters run in deterministic pipeline mode and compared with the functional reference.',
+        'filters run in deterministic pipeline mode (PUB/SUB pipe capacity taken from the sockets own HWM options) and compared with the functional reference; C03_join_runahead_unbounded: a repeated request is credit, n repeats publish n frames for every n - the protocol half of known finding C03-join-runahead (independent join, the faster source runs ahead until zmq drops its frames; shown on the real code with real zmq).',
    note=PROTO_NOTE + ' The chain-composition theorem over the network model is not proved (partial): explored in pipeline mode.',
    technique='Coq proof (refinement of the receiver machine to a three-counter abstract consumer; contract lemmas over the glue and sender machines) + differential correspondence + pipeline-mode exploration against a functional reference', ref='§5, §6 C03')
 CHECKS['C04'] = dict(
@@ -92,7 +92,7 @@ CHECKS['C04'] = dict(
    note=PROTO_NOTE + ' The schedule-independent credit bound over the network fragment is not proved (partial).',
    technique='Coq proof (local flow-control lemmas) + differential correspondence + pipeline-mode exploration', ref='§5, §6 C04')
 CHECKS['C06'] = dict(
-   text='Theorems: eviction on CLOSE and after CONN_TIMEOUT, adoption of the id consumers ask for, acceptance of newer ids, required outputs are waited for; machines compared with the real classes; '
+   text='Theorems: eviction on CLOSE and after CONN_TIMEOUT, adoption of the id consumers ask for, acceptance of newer ids, required outputs are waited for; no lost registration at the receiver (C06_no_lost_registration), the request that was still missing opens the gate and an open gate publishes (C06_last_request_opens_gate, C06_open_gate_publishes), a waiting consumer re-asks every source at every poll timeout (C06_waiting_consumer_asks); machines compared with the real classes; '
         'kill/restart of every filter of a real pipeline at random scheduling steps with restart delays around the connection timeout explored in pipeline mode (flow resumes, ordering kept).',
    note=PROTO_NOTE + ' Handshake convergence / edge progress / deadlock freedom over the network model are not proved (partial).',
    technique='Coq proof (local healing lemmas) + differential correspondence + pipeline-mode fault exploration', ref='§5, §6 C06')
